@@ -4,6 +4,7 @@ import (
 	"encoding/hex"
 	"fmt"
 	"math"
+	"sort"
 
 	"github.com/DDP-Projekt/Kompilierer/src/ast"
 )
@@ -61,6 +62,38 @@ func (v *varTypeVisitor) VisitVarDecl(d *ast.VarDecl) ast.VisitResult {
 func init() {
 	dumpers["vartypes"] = func(m *ast.Module, dir string) []string {
 		v := &varTypeVisitor{}
+		ast.VisitModule(m, v)
+		return v.out
+	}
+}
+
+// every function call with the source range of each argument expression, keyed by parameter name
+type callVisitor struct{ out []string }
+
+func (*callVisitor) Visitor() {}
+func (v *callVisitor) VisitFuncCall(e *ast.FuncCall) ast.VisitResult {
+	names := make([]string, 0, len(e.Args))
+	for n := range e.Args {
+		names = append(names, n)
+	}
+	sort.Strings(names)
+	s := fmt.Sprintf("call %s %d:%d-%d:%d", e.Name, e.Range.Start.Line, e.Range.Start.Column, e.Range.End.Line, e.Range.End.Column)
+	for _, n := range names {
+		a := e.Args[n]
+		if a == nil {
+			s += fmt.Sprintf(" %s=nil", n)
+			continue
+		}
+		r := a.GetRange()
+		s += fmt.Sprintf(" %s=%d:%d-%d:%d", n, r.Start.Line, r.Start.Column, r.End.Line, r.End.Column)
+	}
+	v.out = append(v.out, s)
+	return ast.VisitRecurse
+}
+
+func init() {
+	dumpers["calls"] = func(m *ast.Module, dir string) []string {
+		v := &callVisitor{}
 		ast.VisitModule(m, v)
 		return v.out
 	}
